@@ -1,4 +1,5 @@
 import Hoot.Driver.Replay
+import Hoot.Oracle.All
 
 /-! hootmodel: the line-protocol driver.
     hootmodel replay [nohack] [full] < trace   — replays the op lines through the model, prints the model's trace -/
@@ -12,10 +13,41 @@ partial def replayLoop (h out : IO.FS.Stream) (s : Sess) : IO Unit := do
   out.putStrLn o
   replayLoop h out s'
 
+def flushCase (out : IO.FS.Stream) (pid : String) (cur : Option TCase) : IO Unit := do
+  match cur with
+  | none => pure ()
+  | some c =>
+    let c := { c with lines := c.lines.reverse, metas := c.metas.reverse }
+    match oracleFor pid c with
+    | .ok => out.putStrLn s!"ok {c.id}"
+    | .fail w => out.putStrLn s!"FAIL {c.id} {w}"
+    | .known f w => out.putStrLn s!"KNOWN {c.id} {f} {w}"
+    | .needFull => out.putStrLn s!"NEEDFULL {c.id}"
+
+partial def oracleLoop (h out : IO.FS.Stream) (pid : String) (cur : Option TCase) : IO Unit := do
+  let line ← h.getLine
+  if line.isEmpty then
+    flushCase out pid cur
+    return ()
+  let l := (line.dropEndWhile (· == '\n')).toString
+  if l.isEmpty then oracleLoop h out pid cur else
+  if l.startsWith "case " then
+    flushCase out pid cur
+    oracleLoop h out pid (some { id := (l.drop 5).toString, metas := [], lines := [] })
+  else
+    match cur with
+    | none => oracleLoop h out pid cur
+    | some c =>
+      if l.startsWith "meta " then oracleLoop h out pid (some { c with metas := l :: c.metas })
+      else oracleLoop h out pid (some { c with lines := parseTLine l :: c.lines })
+
 def main (args : List String) : IO UInt32 := do
   match args with
   | "replay" :: rest =>
     replayLoop (← IO.getStdin) (← IO.getStdout) { hack := !rest.contains "nohack", full := rest.contains "full" }
+    return 0
+  | ["oracle", pid] =>
+    oracleLoop (← IO.getStdin) (← IO.getStdout) pid none
     return 0
   | _ =>
     IO.eprintln "usage: hootmodel replay [nohack] [full] < trace"
